@@ -124,16 +124,16 @@ Proof.
   intros (en & E & S & O). apply (He e en E S O).
 Qed.
 
-Lemma step_thread_acc var st t st' : v_recover_own var = true -> v_save_rehome var = true ->
+Lemma step_thread_acc var st t st' : v_recover_own var = true -> v_save_rehome var = true -> v_retry_recheck var = true ->
   step_thread var st t = Some st' -> inv_acc st -> inv_acc st'.
 Proof.
-  unfold step_thread. intros Vown Vre H I. rewrite Vown, Vre in H. pose proof I as [IE IT IC IL IA].
+  unfold step_thread. intros Vown Vre Vrt H I. rewrite Vown, Vre in H. pose proof I as [IE IT IC IL IA].
   destruct (nth_error (threads st) t) as [th|] eqn:Hth; [|discriminate].
   pose proof (IT t th Hth) as Tt. unfold twf in Tt.
-  destruct (tpc th) as [| i | i | g s v | r] eqn:Hpc; try discriminate.
+  destruct (tpc th) as [rt | i | i | g s v | r] eqn:Hpc; try discriminate.
   - (* PStart *)
     destruct (nth_error (caches st) (tcache th)) as [ca|] eqn:Hca; [|discriminate].
-    destruct (creleased ca); [discriminate|].
+    destruct (creleased ca); [discriminate|]. rewrite (blind_retry_off var rt Vrt) in H.
     pose proof (IC _ _ Hca) as Hcur.
     destruct (find_entry (tcache th) (tkey th) (entries st)) as [i|] eqn:Hf.
     + destruct (find_entry_some _ _ _ _ Hf) as (en & Hen & Hatt & Hc & Hk).
